@@ -546,11 +546,40 @@ def class_sweep(res: Result) -> int:
     return n
 
 
+def stall_sweep(res: Result) -> int:
+    """The answers are already in the socket when the loop, busy elsewhere, finally looks - after the calls' timeouts have passed.
+    Arrived data is processed before timers that became due meanwhile: the calls complete with their results, nothing is left."""
+    n = 0
+    for noise in (False, True):
+        for stall in (4.0, 6.0, 11.0, 100.0):
+            # one read returns everything that arrived (the kernel does not keep segment boundaries), and every call is answered in it
+            for chunks in (("DI+LS+LD",), ("LS+LD+DI",), ("LS+DI+LW+LD",)):
+                key = f"stall:{'noise' if noise else 'plain'}:{stall:g}s:{'|'.join(chunks)}"
+                h = ReqHarness(("noise:" if noise else "") + "AB", nd=False)
+                w = h.fresh()
+                try:
+                    for ch in chunks:
+                        atoms = ch.split("+")
+                        w.chunks.append(atoms)
+                        w.io_chunk(w.sock, b"".join(w.dframe(mk(MSGS[a][0], **MSGS[a][1])) for a in atoms))
+                    w.loop.advance_to(w.loop.time() + stall)
+                    w.drain()
+                    w.run_timers(w.loop.time() + 30.0)
+                    n += 1
+                    v = h.verdict(w) or h.finish(w)
+                    if v:
+                        res.add(key, f"{v[0]} [the answers {chunks} were in the socket, the loop looked {stall:g} s later]", {"harness": "c11-stall", "key": key})
+                finally:
+                    h.close(w)
+    return n
+
+
 def run(tier: str, seed: int) -> Result:
     res = Result("C11", "model_checking")
     total = Stats()
     q = tier == "quick"
     n_class = class_sweep(res)
+    n_stall = stall_sweep(res)
     cfgs = [("", 4 if q else 5, 1 if q else 2), ("A", 3 if q else 5, 2), ("B", 3 if q else 5, 2), ("AB", 3 if q else 4, 1 if q else 2),
             ("AC", 3 if q else 4, 2), ("ABC", 3 if q else 4, 1 if q else 2), ("BD", 3 if q else 4, 1 if q else 2),
             ("B.D", 3 if q else 4, 1 if q else 2), ("debug:AB", 3 if q else 4, 1 if q else 2), ("noise:AB", 3 if q else 4, 1 if q else 2), ("recycle:AB", 3 if q else 4, 1 if q else 2),
@@ -590,6 +619,7 @@ def run(tier: str, seed: int) -> Result:
         "executions": total.executions,
         "endings_observed": sorted(ends),
         "close_cause_class_runs": n_class,
+        "stalled_loop_runs": n_stall,
         "distinct_outcomes": len(total.outcomes),
         "configs": per_cfg,
         "exhaustive": not total.time_capped,
@@ -606,6 +636,12 @@ def run(tier: str, seed: int) -> Result:
 
 def replay(rp: dict[str, Any]) -> bool:
     d = rp["detail"]
+    if d.get("harness") == "c11-stall":
+        r = Result("C11", "model_checking")
+        stall_sweep(r)
+        bad = [v for v in r.violations if v.key == d["key"]]
+        print(d["key"], "->", [v.clause for v in bad] or "holds")
+        return not bad
     if d.get("harness") == "c11-class":
         r = Result("C11", "model_checking")
         class_sweep(r)
